@@ -10,6 +10,9 @@ import (
 	"fmt"
 	"io"
 	"math/big"
+	"regexp"
+	"sort"
+	"strconv"
 	"strings"
 
 	"github.com/iDigitalFlame/xmt/com"
@@ -25,7 +28,70 @@ var (
 	thorough bool
 )
 
-const litMax = 2048 // byte strings longer than this are described by a generator, not printed
+// marshalled byte strings longer than this are compared by length and position-weighted checksum
+// only (the quick tier prints fewer literals: parsing them is what costs time in Coq)
+var litMax = 2048
+
+// ---------------------------------------------------------------- deferred, balanced emission
+// Cases are buffered and dealt to the shards by decreasing cost, so that every cases_NNN.v takes
+// about the same time in Coq (the cases with 64 KiB payloads would otherwise sit in two shards).
+type pending struct {
+	term, class string
+	nontrivial  bool
+	desc        interface{}
+	w           int
+}
+
+var (
+	buf   []pending
+	genRe = regexp.MustCompile(`(BGen|SPay|TGen|STags) \d+ (\d+)`)
+)
+
+func add(term, class string, nontrivial bool, desc interface{}) {
+	w := len(term)
+	for _, m := range genRe.FindAllStringSubmatch(term, -1) {
+		n, _ := strconv.Atoi(m[2])
+		if m[1] == "TGen" || m[1] == "STags" {
+			n *= 8
+		}
+		w += n / 5
+	}
+	buf = append(buf, pending{term, class, nontrivial, desc, w})
+}
+func flush() {
+	n := len(buf)
+	if n == 0 {
+		return
+	}
+	order := make([]int, n)
+	for i := range order {
+		order[i] = i
+	}
+	sort.SliceStable(order, func(a, b int) bool { return buf[order[a]].w > buf[order[b]].w })
+	shards := (n + out.ShardSize - 1) / out.ShardSize
+	bins := make([][]int, shards)
+	load := make([]int, shards)
+	for _, i := range order { // longest first, into the least loaded shard that still has room
+		best := -1
+		for b := 0; b < shards; b++ {
+			if len(bins[b]) < out.ShardSize && (best < 0 || load[b] < load[best]) {
+				best = b
+			}
+		}
+		bins[best] = append(bins[best], i)
+		load[best] += buf[i].w
+	}
+	// only the last shard may be short (vh closes a shard when it is full)
+	sort.SliceStable(bins, func(a, b int) bool { return len(bins[a]) > len(bins[b]) })
+	for _, bin := range bins {
+		sort.Ints(bin)
+		for _, i := range bin {
+			c := buf[i]
+			out.Add(c.term, c.class, c.nontrivial, c.desc)
+		}
+	}
+	buf = nil
+}
 
 // ---------------------------------------------------------------- generators shared with Model/Packet.v
 
@@ -371,8 +437,15 @@ func (s split) json() interface{} {
 }
 
 // the splits of DESIGN.md: all at once, 1-byte reads, random, header/body boundary -1/0/+1
-func splitsFor(total, hdr, bodyStart int, small bool) []split {
+func splitsFor(total, hdr, bodyStart int, small bool, mode int) []split {
 	l := []split{{name: "whole"}}
+	if mode == 1 { // large payloads in the quick tier: the header chunkings are those of the small packets
+		if bodyStart > 0 && bodyStart < total {
+			l = append(l, split{sizes: []int{bodyStart}, name: "boundary"})
+		}
+		l = append(l, randomSplit(total, small))
+		return append(l, split{every: total/64 + 1 + rng.Intn(total/2+1), name: "every-k"})
+	}
 	if small {
 		l = append(l, split{every: 1, name: "1byte"})
 	}
@@ -493,7 +566,7 @@ func lenClass(n int) string {
 func doMarshal(p *pdesc) []byte {
 	q := p.build()
 	sz := q.Size()
-	out.Add(fmt.Sprintf("CSize %s %d", p.coq(), sz), "size-"+lenClass(p.pay.n), p.pay.n > 0, map[string]interface{}{"fn": "Size", "packet": p.json()})
+	add(fmt.Sprintf("CSize %s %d", p.coq(), sz), "size-"+lenClass(p.pay.n), p.pay.n > 0, map[string]interface{}{"fn": "Size", "packet": p.json()})
 	var buf bytes.Buffer
 	r := call(func() error { return q.Marshal(&buf) })
 	b := buf.Bytes()
@@ -503,7 +576,7 @@ func doMarshal(p *pdesc) []byte {
 	if !r.ok() {
 		lit = "None"
 	}
-	out.Add(fmt.Sprintf("CMarshal %s %s %s", p.coq(), o, lit), "marshal-"+lenClass(p.pay.n), p.pay.n > 0 || p.tags.n > 0, desc)
+	add(fmt.Sprintf("CMarshal %s %s %s", p.coq(), o, lit), "marshal-"+lenClass(p.pay.n), p.pay.n > 0 || p.tags.n > 0, desc)
 	if p.wellFormed() && !r.ok() {
 		out.Fail("Marshal of a well-formed packet failed: "+r.String(), "marshal-fails/"+lenClass(p.pay.n), desc)
 	}
@@ -526,7 +599,7 @@ func doUnmarshal(input []byte, segs []seg, sp split, p *pdesc, encLen int, class
 	} else {
 		desc["input"] = ints(input)
 	}
-	out.Add(fmt.Sprintf("CUnmarshal %s %s %s", segsCoq(segs), sp.coq(), r.coq(fmt.Sprintf("(%s, %d)", o.coq(), rd.remaining()))),
+	add(fmt.Sprintf("CUnmarshal %s %s %s", segsCoq(segs), sp.coq(), r.coq(fmt.Sprintf("(%s, %d)", o.coq(), rd.remaining()))),
 		class, len(input) > 46, desc)
 	if p == nil || !p.wellFormed() || sp.hasZero() {
 		return
@@ -544,7 +617,7 @@ func doUnmarshal(input []byte, segs []seg, sp split, p *pdesc, encLen int, class
 	}
 }
 
-func wireCases(p *pdesc, allSplits bool) {
+func wireCases(p *pdesc, mode int) {
 	enc := doMarshal(p)
 	if enc == nil {
 		return
@@ -558,8 +631,8 @@ func wireCases(p *pdesc, allSplits bool) {
 	hdr := len(enc) - p.pay.n - 4*p.tags.n
 	small := len(input) <= 4096
 	var sps []split
-	if allSplits {
-		sps = splitsFor(len(input), hdr, len(enc)-p.pay.n, small)
+	if mode > 0 {
+		sps = splitsFor(len(input), hdr, len(enc)-p.pay.n, small, mode)
 	} else {
 		sps = []split{randomSplit(len(input), small)}
 	}
@@ -610,7 +683,7 @@ func manyCase(ps []*pdesc) {
 		pj[i] = p.json()
 	}
 	desc := map[string]interface{}{"fn": "Unmarshal*", "packets": pj, "split": sp.json(), "result": r.String(), "decoded": len(got)}
-	out.Add(fmt.Sprintf("CMany %s %s %s", segsCoq(segs), sp.coq(), r.coq(vh.List(items))), "concat-wire", true, desc)
+	add(fmt.Sprintf("CMany %s %s %s", segsCoq(segs), sp.coq(), r.coq(vh.List(items))), "concat-wire", true, desc)
 	if !r.ok() || !same {
 		out.Fail("a concatenation of marshalled packets does not decode to the same list: "+r.String(), fmt.Sprintf("wire-concat/%d", len(ps)), desc)
 	}
@@ -625,7 +698,7 @@ func marshalStreamChunk(p *pdesc) ([]byte, callRes) {
 	return append([]byte(nil), w.Payload()...), r
 }
 
-func streamCases(p *pdesc, allSplits bool) {
+func streamCases(p *pdesc, mode int) {
 	enc, r := marshalStreamChunk(p)
 	desc := map[string]interface{}{"fn": "MarshalStream(Chunk)", "packet": p.json(), "result": r.String(), "len": len(enc)}
 	if !r.ok() {
@@ -634,7 +707,7 @@ func streamCases(p *pdesc, allSplits bool) {
 		}
 		return
 	}
-	out.Add(fmt.Sprintf("CMarshalStream %s %d %s %s", p.coq(), len(enc), cksum(enc), litOpt(enc)), "mstream-chunk-"+lenClass(p.pay.n), true, desc)
+	add(fmt.Sprintf("CMarshalStream %s %d %s %s", p.coq(), len(enc), cksum(enc), litOpt(enc)), "mstream-chunk-"+lenClass(p.pay.n), true, desc)
 	// the same through data.NewWriter
 	var bb bytes.Buffer
 	q := p.build()
@@ -646,7 +719,7 @@ func streamCases(p *pdesc, allSplits bool) {
 		return w.Flush()
 	})
 	if r2.ok() {
-		out.Add(fmt.Sprintf("CMarshalStream %s %d %s %s", p.coq(), bb.Len(), cksum(bb.Bytes()), litOpt(bb.Bytes())), "mstream-writer-"+lenClass(p.pay.n), true,
+		add(fmt.Sprintf("CMarshalStream %s %d %s %s", p.coq(), bb.Len(), cksum(bb.Bytes()), litOpt(bb.Bytes())), "mstream-writer-"+lenClass(p.pay.n), true,
 			map[string]interface{}{"fn": "MarshalStream(data.NewWriter)", "packet": p.json(), "len": bb.Len()})
 	} else if p.wellFormed() {
 		out.Fail("MarshalStream (stream writer) of a well-formed packet failed: "+r2.String(), "mstream-writer-fails/"+lenClass(p.pay.n), desc)
@@ -660,8 +733,8 @@ func streamCases(p *pdesc, allSplits bool) {
 	doUnmarshalStream(input, segs, p, len(enc), "ustream-chunk-"+lenClass(p.pay.n))
 	small := len(input) <= 4096
 	var sps []split
-	if allSplits {
-		sps = splitsFor(len(input), 45, len(enc)-p.pay.n, small)
+	if mode > 0 {
+		sps = splitsFor(len(input), 45, len(enc)-p.pay.n, small, mode)
 	} else {
 		sps = []split{randomSplit(len(input), small)}
 	}
@@ -685,7 +758,7 @@ func doUnmarshalStream(input []byte, segs []seg, p *pdesc, encLen int, class str
 	} else {
 		desc["input"] = ints(input)
 	}
-	out.Add(fmt.Sprintf("CUnmarshalStream %s %s", segsCoq(segs), r.coq(fmt.Sprintf("(%s, %d)", o.coq(), left))), class, len(input) > 45, desc)
+	add(fmt.Sprintf("CUnmarshalStream %s %s", segsCoq(segs), r.coq(fmt.Sprintf("(%s, %d)", o.coq(), left))), class, len(input) > 45, desc)
 	if p == nil || !p.wellFormed() {
 		return
 	}
@@ -715,7 +788,7 @@ func doUnmarshalSrd(input []byte, segs []seg, sp split, p *pdesc, encLen int, cl
 	} else {
 		desc["input"] = ints(input)
 	}
-	out.Add(fmt.Sprintf("CUnmarshalSrd %s %s %s", segsCoq(segs), sp.coq(), r.coq(fmt.Sprintf("(%s, %d)", o.coq(), rd.remaining()))),
+	add(fmt.Sprintf("CUnmarshalSrd %s %s %s", segsCoq(segs), sp.coq(), r.coq(fmt.Sprintf("(%s, %d)", o.coq(), rd.remaining()))),
 		class, len(input) > 45, desc)
 	if p == nil || !p.wellFormed() || sp.hasZero() {
 		return
@@ -768,7 +841,7 @@ func streamManyCase(ps []*pdesc) {
 		pj[i] = p.json()
 	}
 	desc := map[string]interface{}{"fn": "UnmarshalStream*", "packets": pj, "result": r.String(), "decoded": len(got)}
-	out.Add(fmt.Sprintf("CStreamMany %s %s", segsCoq(segs), r.coq(vh.List(items))), "concat-stream", true, desc)
+	add(fmt.Sprintf("CStreamMany %s %s", segsCoq(segs), r.coq(vh.List(items))), "concat-stream", true, desc)
 	if !r.ok() || !same {
 		out.Fail("packets nested in one container do not decode to the same list: "+r.String(), fmt.Sprintf("stream-concat/%d", len(ps)), desc)
 	}
@@ -806,7 +879,7 @@ func flagCase(op int, f uint64, n uint64) {
 		o = uint64(g)
 	}
 	names := []string{"Clear", "Set", "Unset", "Len", "Position", "Group", "SetLen", "SetPosition", "SetGroup"}
-	out.Add(fmt.Sprintf("CFlag %d %d %d %d", op, f, n, o), "flag-"+names[op], f != 0,
+	add(fmt.Sprintf("CFlag %d %d %d %d", op, f, n, o), "flag-"+names[op], f != 0,
 		map[string]interface{}{"fn": "Flag." + names[op], "word": fmt.Sprintf("%#x", f), "arg": n, "out": fmt.Sprintf("%#x", o)})
 }
 
@@ -927,6 +1000,9 @@ func malformed() {
 		step := 1
 		if len(enc) > 120 {
 			step = 7
+			if !thorough {
+				step = 13
+			}
 		}
 		for cut := 0; cut < len(enc); cut += step {
 			in := append([]byte(nil), enc[:cut]...)
@@ -960,8 +1036,12 @@ func malformed() {
 		}
 		for cut := 0; cut < len(se); cut += step {
 			in := append([]byte(nil), se[:cut]...)
-			doUnmarshalStream(in, []seg{{lit: in}}, nil, 0, "malformed-stream-truncated")
-			doUnmarshalSrd(in, []seg{{lit: in}}, randomSplit(len(in), true), nil, 0, "malformed-stream-truncated")
+			if thorough || cut%2 == 0 || cut > len(se)-4 {
+				doUnmarshalStream(in, []seg{{lit: in}}, nil, 0, "malformed-stream-truncated")
+			}
+			if thorough || cut%2 == 1 || cut > len(se)-4 {
+				doUnmarshalSrd(in, []seg{{lit: in}}, randomSplit(len(in), true), nil, 0, "malformed-stream-truncated")
+			}
 		}
 		in = append([]byte(nil), se...)
 		in[13] = 0
@@ -1024,7 +1104,7 @@ func malformed() {
 func main() {
 	fl := vh.ParseFlags()
 	out = vh.NewOut("C01", fl, "From XMT Require Import Base.Prelude Model.Codec Model.Packet.", "case", "check",
-		"packets over the grid payload length {0,1,2,254..257,65534..65537,100000[,1 MiB]} x tag count {0,1,2,255,256[,32767,32768]} with random id/job/flag word/device, "+
+		"packets over the grid payload length {0,1,2,254..257,65534..65537,100000[,1 MiB]} x tag count {0,1,2,255,256[,32767,32768]} (quick tier: lengths >= 65534 with 1-3 tag counts each and four chunkings; thorough: the full product) with random id/job/flag word/device, "+
 			"each marshalled by the real code (bytes compared with the model) and read back through a chunking io.Reader replaying all-at-once / 1-byte / random / "+
 			"boundary+-1 splits with 0-64 trailing bytes (fields and bytes consumed compared); the same for the nested stream form (Chunk container and data.NewReader); "+
 			"concatenated packets; truncations at every offset, every class byte, forged 2^32/2^63 lengths; flag setters on random and single-bit words. "+
@@ -1032,12 +1112,15 @@ func main() {
 	out.ShardSize = 60
 	rng = vh.NewRand(fl.Seed)
 	thorough = fl.Tier == "thorough"
+	if !thorough {
+		litMax = 640
+	}
 
 	// corpus: the packet of com::TestPacket's shape, and one fragment-flagged packet with tags
 	c0 := &pdesc{id: 0xF0, job: 0x1234, flags: 0x0003000100070001, dev: randDev(), tags: tdesc{lit: []uint32{0xDEADBEEF, 1}, n: 2},
 		pay: bdesc{lit: []byte("hello packet wire format!!!"), n: 27}}
-	wireCases(c0, true)
-	streamCases(c0, true)
+	wireCases(c0, 2)
+	streamCases(c0, 2)
 
 	// boundary grid
 	lens := []int{0, 1, 2, 254, 255, 256, 257, 65534, 65535, 65536, 65537, 100000}
@@ -1048,26 +1131,46 @@ func main() {
 	}
 	for _, L := range lens {
 		for _, T := range tagc {
+			mode := 2
+			if L >= 60000 && !thorough {
+				// quick tier: both sides of the 2/4-byte length switch with three tag counts, the other
+				// large lengths with one tag count each, reduced chunkings (whole / body boundary /
+				// random / every-k); the full product is the thorough tier
+				keep := ((L == 65535 || L == 65536) && (T == 0 || T == 2 || T == 256)) ||
+					(L == 65534 && T == 1) || (L == 65537 && T == 255) || (L == 100000 && T == 2)
+				if !keep {
+					continue
+				}
+				mode = 1
+			}
+			if L >= 1<<20 { // thorough tier only: three tag counts, reduced chunkings
+				if T != 0 && T != 256 && T != 32768 {
+					continue
+				}
+				mode = 1
+			}
 			p := mkPacket(L, T)
-			wireCases(p, true)
-			streamCases(p, true)
+			wireCases(p, mode)
+			streamCases(p, mode)
 		}
 	}
 	// random structured packets
-	nr := 150
+	nr := 90
 	if thorough {
-		nr = 4000
+		nr = 2000
 	}
 	for i := 0; i < nr; i++ {
 		L := rng.Intn(600)
-		switch rng.Intn(10) {
-		case 0:
+		switch k := rng.Intn(40); {
+		case k < 4:
 			L = 0
-		case 1:
+		case k < 8:
 			L = 250 + rng.Intn(12)
-		case 2:
+		case k < 9 || (thorough && k < 12):
 			L = 65530 + rng.Intn(12)
-		case 3:
+		case k < 12:
+			L = 1000 + rng.Intn(12000)
+		case k < 16 && thorough:
 			L = 1000 + rng.Intn(70000)
 		}
 		T := rng.Intn(5)
@@ -1075,11 +1178,11 @@ func main() {
 			T = 250 + rng.Intn(12)
 		}
 		p := mkPacket(L, T)
-		wireCases(p, false)
-		streamCases(p, false)
+		wireCases(p, 0)
+		streamCases(p, 0)
 	}
 	// concatenations
-	nc := 40
+	nc := 24
 	if thorough {
 		nc = 600
 	}
@@ -1091,7 +1194,7 @@ func main() {
 			if rng.Intn(4) == 0 {
 				L = 0
 			}
-			if rng.Intn(12) == 0 {
+			if (thorough && rng.Intn(12) == 0) || (!thorough && i < 2 && j == 1) {
 				L = 65530 + rng.Intn(12)
 			}
 			ps[j] = mkPacket(L, rng.Intn(4))
@@ -1118,7 +1221,7 @@ func main() {
 			}
 		}
 	}
-	nf, no := 1500, 10000
+	nf, no := 600, 1200
 	if thorough {
 		nf, no = 60000, 1000000
 	}
@@ -1136,6 +1239,7 @@ func main() {
 	for i := 0; i < no; i++ {
 		flagOracle(randFlags(), uint16(rng.U64()))
 	}
+	flush()
 	out.Note("payloads of 2^32 bytes and more are not allocated: the 2^32 / 2^63 length classes are exercised on the reader side only, with forged headers and short bodies")
 	out.Finish()
 }
